@@ -16,6 +16,7 @@ import (
 	"io/ioutil"
 	"math"
 	"os"
+	"strconv"
 	"sync"
 
 	"github.com/practable/relay/verifharness/lib"
@@ -39,6 +40,16 @@ func main() {
 		updatesChild()
 		return
 	}
+	if len(os.Args) > 3 && os.Args[1] == "busychild" {
+		n, _ := strconv.Atoi(os.Args[2])
+		sd, _ := strconv.ParseInt(os.Args[3], 10, 64)
+		busyChild(n, sd)
+		return
+	}
+	if len(os.Args) > 1 && os.Args[1] == "farexpirychild" {
+		farExpiryChild()
+		return
+	}
 	if len(os.Args) > 1 && os.Args[1] == "lastsecondchild" {
 		lastSecondChild()
 		return
@@ -60,6 +71,12 @@ func main() {
 			runFlood(res)
 		case "churn":
 			runChurn(res)
+		case "busy":
+			cases = append(cases, runBusy(res, int(c.D), a.Seed)...)
+		case "farexpiry":
+			if c := runFarExpiry(res); c != nil {
+				cases = append(cases, *c)
+			}
 		case "updates":
 			if c := runUpdates(res); c != nil {
 				cases = append(cases, *c)
@@ -171,7 +188,7 @@ func main() {
 			}
 			// then, side by side: a viewer asking for updates in bursts, and last-second joins
 			var cwg sync.WaitGroup
-			for _, f := range []func(*lib.Result) *Case{runUpdates, runLastSecond} {
+			for _, f := range []func(*lib.Result) *Case{runUpdates, runLastSecond, runFarExpiry} {
 				cwg.Add(1)
 				go func(f func(*lib.Result) *Case) {
 					defer cwg.Done()
@@ -195,11 +212,20 @@ func main() {
 			cwg.Wait()
 			close(churnDone)
 		}()
+		busyRes := lib.NewResult("C14", a.Seed, a.Tier)
+		busyDone := make(chan struct{})
+		go func() {
+			for _, c := range runBusy(busyRes, a.Pick(5000, 70000), a.Seed) {
+				w.addCase(c)
+			}
+			close(busyDone)
+		}()
 		runHistories(a, rng.Fork(), w)
 		<-childDone
 		<-churnDone
+		<-busyDone
 		res.Extra = map[string]interface{}{}
-		for _, cr := range []*lib.Result{childRes, churnRes} {
+		for _, cr := range []*lib.Result{childRes, churnRes, busyRes} {
 			res.Violations = append(res.Violations, cr.Violations...)
 			res.Notes = append(res.Notes, cr.Notes...)
 			for k, v := range cr.Extra {
@@ -229,6 +255,8 @@ func main() {
 			coq[i] = runHistCase(c)
 		case "rate":
 			coq[i] = runRateCase(c)
+		case "traffic":
+			coq[i] = runTrafficCase(c)
 		default:
 			fmt.Fprintln(os.Stderr, "unknown case kind", c.Kind)
 			os.Exit(2)
